@@ -9,23 +9,29 @@ import AlatorVerif.Driver.Srv
 import AlatorVerif.Driver.Cost
 import AlatorVerif.DriverX.Broker
 import AlatorVerif.DriverX.Cost
+import AlatorVerif.DriverX.Jura
+import AlatorVerif.DriverX.Strat
 
-/-- one executable, one sub-command per modelled component; each reads the line protocol on stdin -/
+/-- one executable, one sub-command per modelled component; each reads the line protocol on stdin.
+    `uist`, `jura`, `broker`, `strat`, `cost` run the carrier-generic drivers of `DriverX/` at `Float`; the `-exact`
+    sub-commands run the very same driver code at `Rat` -/
 def main (args : List String) : IO UInt32 := do
   match args with
-  | "uist" :: _ => Drv.Uist.main; return 0
-  | "jura" :: _ => Drv.Jura.main; return 0
-  | "broker" :: r => Drv.Broker.main r; return 0
+  | "uist" :: _ => DrvX.Uist.main Float; return 0
+  | "jura" :: _ => DrvX.Jura.main Float; return 0
+  | "broker" :: r => DrvX.Broker.main Float r; return 0
   | "perf" :: r => Drv.Perf.main r; return 0
   | "server-uist" :: r => Drv.Srv.mainUist r; return 0
   | "server-jura" :: r => Drv.Srv.mainJura r; return 0
   | "sched" :: r => Drv.Sched.main r; return 0
-  | "strat" :: r => Drv.Strat.main r; return 0
-  | "cost" :: _ => Drv.Cost.main; return 0
+  | "strat" :: r => DrvX.Strat.main Float r; return 0
+  | "cost" :: _ => DrvX.Cost.main Float; return 0
   -- the same drivers at carrier `Rat` (exact arithmetic: an instance of the theorems' ordered-field hypotheses)
   | "uist-exact" :: _ => DrvX.Uist.main Rat; return 0
   | "cost-exact" :: _ => DrvX.Cost.main Rat; return 0
   | "broker-exact" :: r => DrvX.Broker.main Rat r; return 0
+  | "jura-exact" :: _ => DrvX.Jura.main Rat; return 0
+  | "strat-exact" :: r => DrvX.Strat.main Rat r; return 0
   | "http-uist" :: r => Drv.Http.mainUist r; return 0
   | "http-jura" :: r => Drv.Http.mainJura r; return 0
   | _ => IO.eprintln "usage: driver <uist|jura|broker|perf|server|sched|strat|cb|http>"; return 2
